@@ -400,3 +400,6 @@ prefix("C06", "D22-prefix-softmax-batch-mean", D, "c5ef762", "R-BATCH", "deep_li
 case("C06", "nonlinear-batch-scaled-tolerance", "VIOLATION", [(D, "\tidxs = torch.abs(delta_in) < 1e-6\n\n\treturn (torch.where(idxs, grad_input[0], grad_output[0] * delta),)", "\ttol = 1e-6 * max(1.0, module.input.abs().max().item())\n\tidxs = torch.abs(delta_in) < tol\n\n\treturn (torch.where(idxs, grad_input[0], grad_output[0] * delta),)")], "R-BATCH", "deep_lift_shap._nonlinear")
 case("C05", "hooks-skip-foreign-forward-hook", "VIOLATION", [(D, "\tif len(module._backward_hooks) > 0:\n\t\treturn\n", "\tif len(module._backward_hooks) > 0 or len(module._forward_hooks) > 0:\n\t\treturn\n")], "HOOKS", "deep_lift_shap._register_hooks")
 case("C07", "predict-inference-mode", "VIOLATION", [(P, "with torch.no_grad():", "with torch.inference_mode():")], "R-NOGRAD", "predict.predict")
+case("C12", "fimo-eps-written-into-motif", "VIOLATION", [(FI, "\tmotifs = [(name, pwm.numpy(force=True)) for name, pwm in motifs_]\n", "\tmotifs = [(name, pwm.numpy(force=True)) for name, pwm in motifs_]\n\tfor name, pwm in motifs:\n\t\tpwm += 0.0\n")], "R-PURE", "tools.fimo.fimo")
+case("C11", "fimo-eps-only-for-zeros", "VIOLATION", [(FI, "\tmotif_pwms = numpy.log2(motif_pwms + eps) - math.log2(0.25)\n", "\tif motif_pwms.min() <= 0:\n\t\tmotif_pwms = motif_pwms + eps\n\tmotif_pwms = numpy.log2(motif_pwms) - math.log2(0.25)\n")], "EPS", "tools.fimo.fimo")
+case("C09", "ism-args-tiled-whole", "VIOLATION", [(I, "\t\t\targs_ = tuple(a[i].repeat(X_.shape[0], *(1 for _ in a[i].shape))", "\t\t\targs_ = tuple(a.repeat(X_.shape[0], *(1 for _ in a[i].shape))")], "ARGS-GIVEN", "ism.saturation_mutagenesis")
